@@ -1392,7 +1392,7 @@ func liveReportStall(c LiveCase, x *h.Ctx, live []*liveProc, victim, stuck *live
 			}
 		}
 	}
-	if victim != nil && victim.runs > 1 && h.IsKnownFor("C12", "proposer-cache-lost-on-reload") {
+	if victim != nil && victim.runs > 1 && !(stuck == victim && othersDone) && h.IsKnownFor("C12", "proposer-cache-lost-on-reload") {
 		// while that finding is open every stall that follows a restart is counted under it: with
 		// the evidence when two nodes were seen to expect different proposers for one height/round,
 		// by plausibility otherwise (a restarted validator whose vote is needed and who rejects the
